@@ -343,32 +343,30 @@ func c19ReloadNoHealthy(c *Ctx, name string, b vsched.Bounds) Sched {
 			env.FreshAll()
 			env.Apply(cfg)
 			e.RebindServersOnly()
-			var res *env.Result
+			var res, res2 *env.Result
 			bodies := []func(){
-				func() { res = e.Do(env.Req{Method: "POST", URI: "/x", Rid: "t0"}) },
+				func() { res = e.Do(env.Req{URI: "/k", Rid: "t0"}) },
 				func() { _ = env.Apply(cfg) },
+				func() { res2 = e.Do(env.Req{URI: "/k", Rid: "t2"}) }, // the same URL: the two requests coalesce; both get their 5xx
 			}
 			check := func(x *vsched.Exec) *vsched.Violation {
 				e.Events()
-				if x.Deadlock || x.Livelock || len(x.Panics) > 0 || res == nil {
+				if x.Deadlock || x.Livelock || len(x.Panics) > 0 || res == nil || res2 == nil {
 					return nil
 				}
-				if res.Status < 500 {
-					return &vsched.Violation{Sig: "no-healthy-server-but-not-5xx", Msg: fmt.Sprintf("the only server refuses connections, the request was answered %d %q", res.Status, trunc(res.Body))}
+				for _, r := range []*env.Result{res, res2} {
+					if r.Status < 500 {
+						return &vsched.Violation{Sig: "no-healthy-server-but-not-5xx", Msg: fmt.Sprintf("the only server refuses connections, request %s was answered %d %q", r.Rid, r.Status, trunc(r.Body))}
+					}
 				}
 				for _, bo := range x.BlockedAt {
-					if bo.Tid == 0 && bo.Owner == 1 && bo.OwnerOp == vsched.OpYield && bo.OwnerRes == 77 {
+					if bo.Tid != 1 && bo.Owner == 1 && bo.OwnerOp == vsched.OpYield && bo.OwnerRes == 77 {
 						return &vsched.Violation{Sig: "error-answer-waits-for-health-checks-of-a-reload", Msg: "no server is healthy and a reload is in progress: the request is parked on a lock held by the reload, which is inside the health check of the new pool (a network exchange with every server, up to 3 s each): the 5xx is not prompt"}
 					}
 				}
 				return nil
 			}
-			return bodies, check, func() string {
-				if res == nil {
-					return "nil"
-				}
-				return fmt.Sprint(res.Status)
-			}
+			return bodies, check, func() string { return resSummary([]*env.Result{res, res2}, false) }
 		},
 	}
 }
